@@ -152,7 +152,9 @@ class Module:
         self.path = path
         self.relpath = relpath
         self.source = source
-        self.tree = ast.parse(source, filename=path)
+        from .normalize import normalize_module
+        self.renamed = {}        # function -> {current local: reference local} applied by the alpha-normalisation
+        self.tree = normalize_module(ast.parse(source, filename=path), name, self.renamed)
         self.functions = {}
         self.classes = {}
         self.imports = {}        # local name -> ('module', modname) | ('attr', modname, attr)
